@@ -194,14 +194,17 @@ TracebackLabels(tag, res, chain, tb) ==
 
 \* set_value / clear_at of element n (accepted): exactly the dependents go
 ValueEditLabels(tag, DD, D2, isSet, n, pre, dl, fx, recalc, taint) ==
-    LET P == DOMAIN pre
+    LET \* (on a broken tree values may be held by objects whose definition is gone: they are
+        \*  reported by C13.NoResidue / C07 where they appear, and take no part here)
+        ghosts == {x \in DOMAIN pre \cup DOMAIN dl : ~NodeExists(DD, x)}
+        P == DOMAIN pre \ ghosts
         \* (clearing an element that holds nothing -- never computed, or of an uncached
         \*  cells -- changes nothing)
         gone == IF ~isSet /\ n \notin P THEN {}
                 ELSE {x \in P : x # n /\ ~IsInput(DD, x) /\ n \in DepsStar(DD, x)}
         \* what tainted values depended on when they were computed is not
         \* recoverable from the current definitions: they may stay or go
-        free == taint
+        free == taint \cup ghosts
         want == IF isSet THEN (P \ gone) \cup {n} ELSE P \ (gone \cup {n})
     IN
       IF recalc /\ isSet
